@@ -123,16 +123,22 @@ fn any_flag() -> Option<Flag> {
 //@prop C16
 //@tier quick
 //@timeout 900
-//@doc for every hour 0..=23 and every flag (none _ 0 - ^ #): %p prints "AM" for hours 0..=11 and "PM" for 12..=23, %P the same in lower case; `^` forces upper case, `#` swaps the case of %p ("am"/"pm") and leaves %P; the padding flags do nothing.  Agreement with %I: midnight is 12 AM, noon is 12 PM, and the 12-hour reading (I, AM/PM) that %I and %p print denotes the original hour: BrokenDownTime{hour: I, meridiem}.hour_ranged() == h (the reconciliation the parser uses for %I %p)
+//@doc for each of the 24 hours (enumerated, so that the case mapping runs on concrete characters), every flag (none _ 0 - ^ #) and every width: %p prints "AM" for hours 0..=11 and "PM" for 12..=23, %P the same in lower case; `^` forces upper case, `#` swaps the case of %p ("am"/"pm") and leaves %P as it is; padding flags and widths do nothing.  Agreement with %I: midnight is 12 AM, noon is 12 PM, and the 12-hour reading (I, AM/PM) that %I and %p print denotes the original hour: BrokenDownTime{hour: I, meridiem}.hour_ranged() == h (the reconciliation the parser side uses for %I %p)
 #[kani::proof]
 #[kani::unwind(26)]
 fn c16_fmt_ampm() {
-    let h: i8 = kani::any(); kani::assume(0 <= h && h <= 23);
-    let time = Time::new_ranged(t::Hour::new_unchecked(h), t::Minute::new_unchecked(0), t::Second::new_unchecked(0), t::SubsecNanosecond::new_unchecked(0));
-    let tm = BrokenDownTime::from(time);
     let flag = any_flag();
     let ext = Extension { flag, width: kani::any() };
     let upper: bool = kani::any();
+    let mut h: i8 = 0;
+    while h < 24 {
+        ampm_one(h, flag, ext, upper);
+        h += 1;
+    }
+}
+fn ampm_one(h: i8, flag: Option<Flag>, ext: Extension, upper: bool) {
+    let time = Time::new_ranged(t::Hour::new_unchecked(h), t::Minute::new_unchecked(0), t::Second::new_unchecked(0), t::SubsecNanosecond::new_unchecked(0));
+    let tm = BrokenDownTime::from(time);
     let mut w = Buf::new();
     let r = {
         let mut f = Formatter { fmt: b"", tm: &tm, wtr: &mut w };
@@ -199,9 +205,21 @@ fn c16_fmt_date_fields() {
     }
 }
 
-// ---- ISO 8601 week-based year and week.  `Date::iso_week_date` runs for real; only the two Neri-Schneider conversions
-// are replaced: to_epoch_day by the closed form `rd` (transcribed from contracts/verus/lib/greg.vrs; the Verus unit itime
-// proves the real function computes it) and to_date by its inverse (any valid date whose rd is the argument)
+// ---- ISO 8601 week-based year and week (%G %g %V)
+// reference: the ISO 8601 week-based year and week number of a date = the calendar year of the Thursday of the date's
+// Monday-based week, and 1 + (that Thursday's 0-based ordinal day) / 7.  `iso_wd` is the date's weekday (1 = Monday)
+fn iso_ref(y: i64, m: i64, d: i64, iso_wd: i64) -> (i64, i64) {
+    let td = doy(y, m, d) + (4 - iso_wd);                       // ordinal day of that Thursday, counted in year y
+    if td < 1 {
+        (y - 1, (td + diy(y - 1) - 1) / 7 + 1)
+    } else if td > diy(y) {
+        (y + 1, (td - diy(y) - 1) / 7 + 1)
+    } else {
+        (y, (td - 1) / 7 + 1)
+    }
+}
+// `Date::iso_week_date` runs for real; only the two Neri-Schneider conversions are replaced.  to_epoch_day: the closed
+// form `rd` (transcribed from contracts/verus/lib/greg.vrs; the Verus unit itime proves the real function computes it).
 fn rd(y: i32, m: i32, d: i32) -> i32 {
     let yy = if m <= 2 { y - 1 } else { y };
     let mm = if m <= 2 { m + 12 } else { m };
@@ -212,142 +230,248 @@ fn rd_to_epoch_day(d: &IDate) -> IEpochDay {
     assert!(valid(d.year as i64, d.month as i64, d.day as i64) || (d.year == 10000 && d.month == 1 && d.day == 4));
     IEpochDay { epoch_day: rd(d.year as i32, d.month as i32, d.day as i32) }
 }
-fn rd_to_date(e: &IEpochDay) -> IDate {
+// to_date: its contract (inverse of rd) instantiated where iso_week_date needs it -- the days rd(Y,1,4)-3 ..= rd(Y,1,4)+3
+// are January 1..=7 of year Y (rd is linear in the day of the month) -- for the three candidate years around the date's
+// year; the stub ASSERTS that the argument lies in one of these windows
+static mut HINT_YEAR: i32 = 0;
+fn window_to_date_rd(e: &IEpochDay) -> IDate {
     assert!(E_MIN <= e.epoch_day && e.epoch_day <= E_MAX);
-    let d = IDate { year: kani::any(), month: kani::any(), day: kani::any() };
-    kani::assume(valid(d.year as i64, d.month as i64, d.day as i64));
-    kani::assume(rd(d.year as i32, d.month as i32, d.day as i32) == e.epoch_day);
-    d
-}
-/// reference: the ISO 8601 week-based year and week number of a date = the calendar year of the Thursday of the date's
-/// Monday-based week, and 1 + (that Thursday's 0-based ordinal day) / 7
-fn iso_ref(y: i64, m: i64, d: i64) -> (i64, i64) {
-    let iso_wd = wd(rd(y as i32, m as i32, d as i32) as i64);   // 1 = Monday .. 7 = Sunday
-    let td = doy(y, m, d) + (4 - iso_wd);                       // ordinal day of that Thursday, counted in year y
-    if td < 1 {
-        let t2 = td + diy(y - 1);
-        (y - 1, (t2 - 1) / 7 + 1)
-    } else if td > diy(y) {
-        (y + 1, (td - diy(y) - 1) / 7 + 1)
-    } else {
-        (y, (td - 1) / 7 + 1)
+    let h = unsafe { HINT_YEAR };
+    let mut out = IDate { year: 0, month: 0, day: 0 };
+    let mut hit = false;
+    let mut i = -1;
+    while i <= 1 {
+        let yy = h + i;
+        if -9999 <= yy && yy <= 9999 {
+            let k = e.epoch_day - rd(yy, 1, 4);
+            if -3 <= k && k <= 3 { out = IDate { year: yy as i16, month: 1, day: (4 + k) as i8 }; hit = true; }
+        }
+        i += 1;
     }
+    assert!(hit, "to_date called outside the first seven days of the candidate years");
+    out
 }
 
-//@harness c16_fmt_iso_week
-//@target fmt::strtime::format::Formatter::{fmt_iso_week_year,fmt_iso_week_year2,fmt_week_iso} + civil::Date::iso_week_date (%G %g %V) (src/fmt/strtime/format.rs, src/civil/date.rs)
+//@harness c16_iso_week_date_rd
+//@target civil::Date::iso_week_date + iso_week_start_from_year (the value behind %G %g %V) (src/civil/date.rs)
 //@prop C16 C01
 //@tier quick
-//@timeout 1200
-//@doc for every date: %G prints the ISO 8601 week-based year (the calendar year of the Thursday of the date's Monday-based week) like %Y ('-' + 4 zero padded digits), %V prints the ISO week number 1 + (ordinal day of that Thursday - 1) / 7 as 2 digits (always 01..53), %g is Ok exactly when the ISO year is in 1969..=2068 and then prints it mod 100 as 2 digits.  `Date::iso_week_date` is the real code; IDate::to_epoch_day is replaced by the closed-form day count rd and IEpochDay::to_date by its inverse (contracts proved by the Verus unit itime)
+//@timeout 1500
+//@doc EXPERIMENT V1
 #[kani::proof]
 #[kani::stub(IDate::to_epoch_day, rd_to_epoch_day)]
-#[kani::stub(IEpochDay::to_date, rd_to_date)]
-#[kani::unwind(26)]
-fn c16_fmt_iso_week() {
+#[kani::stub(IEpochDay::to_date, window_to_date_rd)]
+#[kani::unwind(6)]
+fn c16_iso_week_date_rd() {
     let dt = any_date();
     let (y, m, d) = ymd(dt);
-    let tm = BrokenDownTime::from(dt);
-    let (gy, gw) = iso_ref(y, m, d);
-    let which: u8 = kani::any();
-    kani::assume(which < 3);
-    let mut w = Buf::new();
-    let r = {
-        let mut f = Formatter { fmt: b"", tm: &tm, wtr: &mut w };
-        match which {
-            0 => f.fmt_iso_week_year(NOEXT),
-            1 => f.fmt_iso_week_year2(NOEXT),
-            _ => f.fmt_week_iso(NOEXT),
-        }
-    };
-    match which {
-        0 => assert!(r.is_ok() && is_int(&w, gy, b'0', 4)),
-        1 => {
-            assert!(r.is_ok() == (1969 <= gy && gy <= 2068));
-            if r.is_ok() { assert!(is_int(&w, gy % 100, b'0', 2) && w.n == 2); }
-        }
-        _ => assert!(r.is_ok() && is_int(&w, gw, b'0', 2) && w.n == 2 && 1 <= gw && gw <= 53),
+    unsafe { HINT_YEAR = y as i32; }
+    let iso_wd = wd(rd(y as i32, m as i32, d as i32) as i64);
+    let (gy, gw) = iso_ref(y, m, d, iso_wd);
+    let got = dt.iso_week_date();
+    assert!(got.year() as i64 == gy && got.week() as i64 == gw && wnum(got.weekday()) == iso_wd);
+    assert!(1 <= gw && gw <= 53);
+}
+
+use crate::verif_kani::memo::*;
+fn memo_x_to_epoch_day(d: &IDate) -> IEpochDay {
+    if d.year == 10000 && d.month == 1 && d.day == 4 {
+        // the one out-of-range date (c01_iso_week_start_year_10000: the real code yields 2932900), 365 days after 9999-01-04
+        let e = memo_to_epoch_day(&IDate { year: 9999, month: 1, day: 4 });
+        kani::assume(e.epoch_day == 2932535);
+        return IEpochDay { epoch_day: 2932900 };
     }
+    memo_to_epoch_day(d)
+}
+fn window_to_date_memo(e: &IEpochDay) -> IDate {
+    assert!(E_MIN <= e.epoch_day && e.epoch_day <= E_MAX);
+    let h = unsafe { HINT_YEAR };
+    let mut out = IDate { year: 0, month: 0, day: 0 };
+    let mut hit = false;
+    let mut i = -1;
+    while i <= 1 {
+        let yy = h + i;
+        if -9999 <= yy && yy <= 9999 {
+            let k = e.epoch_day - memo_to_epoch_day(&IDate { year: yy as i16, month: 1, day: 4 }).epoch_day;
+            if -3 <= k && k <= 3 { out = IDate { year: yy as i16, month: 1, day: (4 + k) as i8 }; hit = true; }
+        }
+        i += 1;
+    }
+    assert!(hit, "to_date called outside the first seven days of the candidate years");
+    out
+}
+
+//@harness c16_iso_week_date_memo
+//@target civil::Date::iso_week_date + iso_week_start_from_year (the value behind %G %g %V) (src/civil/date.rs)
+//@prop C16 C01
+//@tier quick
+//@timeout 1500
+//@doc EXPERIMENT V2
+#[kani::proof]
+#[kani::stub(IDate::to_epoch_day, memo_x_to_epoch_day)]
+#[kani::stub(IEpochDay::to_date, window_to_date_memo)]
+#[kani::unwind(6)]
+fn c16_iso_week_date_memo() {
+    memo_facts(F_YEAR);
+    let dt = any_date();
+    let (y, m, d) = ymd(dt);
+    unsafe { HINT_YEAR = y as i32; }
+    let iso_wd = wd(e_of(y, m, d));
+    let (gy, gw) = iso_ref(y, m, d, iso_wd);
+    let got = dt.iso_week_date();
+    assert!(got.year() as i64 == gy && got.week() as i64 == gw && wnum(got.weekday()) == iso_wd);
+    assert!(1 <= gw && gw <= 53);
 }
 
 // ---- %s
-use crate::verif_kani::memo::*;
 use crate::tz::Offset as Off;
+use crate::Timestamp;
 
-//@harness c16_fmt_timestamp
-//@target fmt::strtime::format::Formatter::fmt_timestamp + BrokenDownTime::{to_timestamp,to_datetime,to_date,to_time} (%s of the fields a Zoned / Timestamp fills in) (src/fmt/strtime/format.rs, src/fmt/strtime/mod.rs)
-//@prop C16 C02
-//@tier quick
-//@timeout 1200
-//@doc for every civil datetime WITH ZERO FRACTION and every offset -93599..=93599 (the fields From<&Zoned> / From<Timestamp> store): %s is Ok exactly when the instant lies within Timestamp::MIN..=Timestamp::MAX, and then prints N = E(date)*86400 + h*3600 + m*60 + s - offset as a plain decimal ('-' for negative, no padding); E is the Verus-proved day count (axiomatised memo stub).  The fraction is fixed to zero because with a non-zero fraction the real code disagrees with the C definition, see c16_fmt_timestamp_fraction
-#[kani::proof]
-#[kani::stub(IDate::to_epoch_day, memo_to_epoch_day)]
-#[kani::unwind(26)]
-fn c16_fmt_timestamp() {
+fn any_zoned_fields(zero_fraction: bool) -> (BrokenDownTime, i64) {
     let dt = any_date();
     let (y, m, d) = ymd(dt);
     let (time, h, mi, s, ns) = any_time();
-    kani::assume(ns == 0);
+    if zero_fraction { kani::assume(ns == 0); }
     let off: i32 = kani::any();
     kani::assume(-93599 <= off && off <= 93599);
     let tm = BrokenDownTime { offset: Some(Off::from_seconds_unchecked(off)), ..BrokenDownTime::from(DateTime::from_parts(dt, time)) };
-    let want = e_of(y, m, d) * 86400 + h * 3600 + mi * 60 + s - off as i64;
-    let mut w = Buf::new();
-    let r = { let mut f = Formatter { fmt: b"", tm: &tm, wtr: &mut w }; f.fmt_timestamp(NOEXT) };
-    assert!(r.is_ok() == (-377705023201 <= want && want <= 253402207200));
-    if r.is_ok() { assert!(is_int(&w, want, b' ', 0)); }
+    (tm, e_of(y, m, d) * 86400 + h * 3600 + mi * 60 + s - off as i64)
 }
 
-//@harness c16_fmt_timestamp_fraction
-//@target fmt::strtime::format::Formatter::fmt_timestamp (%s of an instant with a fractional second) (src/fmt/strtime/format.rs)
+//@harness c16_timestamp_value
+//@target fmt::strtime::BrokenDownTime::{to_timestamp,to_datetime,to_date,to_time,to_offset} (the value behind %s, from the fields a Zoned / Timestamp fills in) (src/fmt/strtime/mod.rs)
+//@prop C16 C02
+//@tier quick
+//@timeout 1200
+//@doc for every civil datetime WITH ZERO FRACTION and every offset -93599..=93599 (the fields From<&Zoned> / From<Timestamp> store): to_timestamp is Ok exactly when N = E(date)*86400 + h*3600 + m*60 + s - offset lies within Timestamp::MIN..=Timestamp::MAX seconds, and then its as_second() is N (the C library's "seconds since the Epoch" of the broken-down time); E is the Verus-proved day count (axiomatised memo stub).  With a fraction see c16_timestamp_value_fraction
+#[kani::proof]
+#[kani::stub(IDate::to_epoch_day, memo_to_epoch_day)]
+#[kani::unwind(6)]
+fn c16_timestamp_value() {
+    let (tm, want) = any_zoned_fields(true);
+    let r = tm.to_timestamp();
+    assert!(r.is_ok() == (-377705023201 <= want && want <= 253402207200));
+    if let Ok(ts) = r { assert!(ts.as_second() == want && ts.subsec_nanosecond() == 0); }
+}
+
+//@harness c16_timestamp_value_fraction
+//@target fmt::strtime::format::Formatter::fmt_timestamp = BrokenDownTime::to_timestamp().as_second() (%s of an instant with a fractional second) (src/fmt/strtime/format.rs)
 //@prop C16
 //@tier quick
 //@timeout 1200
-//@doc as c16_fmt_timestamp but for every fraction 0..=999_999_999 ns: %s prints the Unix time of the civil second that the same value's %S (and %Y-%m-%d %H:%M) print, i.e. floor(instant) -- "seconds since the Epoch" of the broken-down fields, as mktime()/strftime define it.  On jiff 0.2.8 this FAILS for instants before 1970 with a non-zero fraction: Timestamp::as_second truncates toward zero, so 1969-12-31T23:59:59.5Z formats with "%s|%S" as "0|59" and strptime("%s") of the output yields 1970-01-01T00:00:00Z
+//@doc as c16_timestamp_value for every fraction 0..=999_999_999 ns: the number %s prints is the Unix time of the civil second that the same value's %S (and %Y-%m-%d %H:%M) print, i.e. floor(instant) -- "seconds since the Epoch" of the broken-down fields, as mktime()/strftime define it.  On jiff 0.2.8 this FAILS for instants before 1970 with a non-zero fraction: Timestamp::as_second truncates toward zero, so 1969-12-31T23:59:59.5Z formats with "%s|%S" as "0|59" (expected "-1|59") and strptime("%s") of the output yields 1970-01-01T00:00:00Z
 #[kani::proof]
 #[kani::stub(IDate::to_epoch_day, memo_to_epoch_day)]
+#[kani::unwind(6)]
+fn c16_timestamp_value_fraction() {
+    let (tm, want) = any_zoned_fields(false);
+    if let Ok(ts) = tm.to_timestamp() { assert!(ts.as_second() == want); }
+}
+
+static mut STUB_SECOND: i64 = 0;
+fn stub_to_timestamp(_tm: &BrokenDownTime) -> Result<Timestamp, Error> {
+    if kani::any() {
+        let s: i64 = kani::any();
+        kani::assume(-377705023201 <= s && s <= 253402207200);
+        unsafe { STUB_SECOND = s; }
+        Ok(Timestamp::from_second(s).unwrap())
+    } else {
+        Err(err!("stub"))
+    }
+}
+
+//@harness c16_fmt_timestamp_print
+//@target fmt::strtime::format::Formatter::fmt_timestamp + Extension::write_int + fmt::util::Decimal::new on 12-digit values (%s) (src/fmt/strtime/format.rs, src/fmt/util.rs)
+//@prop C16
+//@tier quick
+//@timeout 1200
+//@doc glue + printing, callee BrokenDownTime::to_timestamp replaced by a nondeterministic stub (any Timestamp second in -377705023201..=253402207200, or Err; its value is c16_timestamp_value): %s is Err exactly when to_timestamp is, otherwise it prints as_second() as a plain decimal: '-' for negative values, no padding, no leading zeros, for EVERY second in the Timestamp range
+#[kani::proof]
+#[kani::stub(BrokenDownTime::to_timestamp, stub_to_timestamp)]
 #[kani::unwind(26)]
-fn c16_fmt_timestamp_fraction() {
-    let dt = any_date();
-    let (y, m, d) = ymd(dt);
-    let (time, h, mi, s, _ns) = any_time();
-    let off: i32 = kani::any();
-    kani::assume(-93599 <= off && off <= 93599);
-    let tm = BrokenDownTime { offset: Some(Off::from_seconds_unchecked(off)), ..BrokenDownTime::from(DateTime::from_parts(dt, time)) };
-    let want = e_of(y, m, d) * 86400 + h * 3600 + mi * 60 + s - off as i64;
+fn c16_fmt_timestamp_print() {
+    let tm = BrokenDownTime::default();
     let mut w = Buf::new();
+    unsafe { STUB_SECOND = i64::MIN; }
     let r = { let mut f = Formatter { fmt: b"", tm: &tm, wtr: &mut w }; f.fmt_timestamp(NOEXT) };
-    if r.is_ok() { assert!(is_int(&w, want, b' ', 0)); }
+    let s = unsafe { STUB_SECOND };
+    assert!(r.is_ok() == (s != i64::MIN));
+    if r.is_ok() { assert!(is_int(&w, s, b' ', 0)); }
 }
 
 // ---- %f / %.f
-fn pow10(k: usize) -> i64 {
-    match k { 0 => 1, 1 => 10, 2 => 100, 3 => 1_000, 4 => 10_000, 5 => 100_000, 6 => 1_000_000, 7 => 10_000_000, 8 => 100_000_000, _ => 1_000_000_000 }
+/// value of the k (<= 9) ASCII digits at b[from..]; 2^63 if one of them is not a digit
+fn numf(b: &[u8; 24], from: usize, k: usize) -> u64 {
+    let mut v: u64 = 0;
+    let mut i = 0;
+    while i < 9 {
+        if i < k {
+            let c = b[from + i];
+            if c < b'0' || c > b'9' { return 1 << 63; }
+            v = v * 10 + (c - b'0') as u64;
+        }
+        i += 1;
+    }
+    v
 }
-/// b[from..from+k] are the first k digits of the 9-digit zero padded nanosecond count (truncation)
-fn is_frac_prefix(w: &Buf, from: usize, k: usize, ns: i64) -> bool {
-    w.n == from + k && num(&w.b, from, from + k) == ns / pow10(9 - k)
+/// p * 10^(9-k), constant multipliers
+fn scale(p: u64, k: usize) -> u64 {
+    match k { 1 => p * 100_000_000, 2 => p * 10_000_000, 3 => p * 1_000_000, 4 => p * 100_000, 5 => p * 10_000, 6 => p * 1_000, 7 => p * 100, 8 => p * 10, _ => p }
 }
-/// b[from..] is the 9-digit form with trailing zeros removed (ns != 0)
-fn is_frac_trimmed(w: &Buf, from: usize, ns: i64) -> bool {
+/// b[from..from+k] are the first k digits of the 9-digit zero padded nanosecond count: the k-digit number P with P*10^(9-k) <= ns < (P+1)*10^(9-k) (truncation)
+fn is_frac_prefix(w: &Buf, from: usize, k: usize, ns: u64) -> bool {
+    if w.n != from + k || k < 1 || k > 9 { return false; }
+    let p = numf(&w.b, from, k);
+    p < (1 << 62) && scale(p, k) <= ns && ns < scale(p + 1, k)
+}
+/// b[from..] is the 9-digit form with trailing zeros removed (ns != 0): k digits P, the last one not '0', P*10^(9-k) == ns
+fn is_frac_trimmed(w: &Buf, from: usize, ns: u64) -> bool {
     if w.n <= from || w.n > from + 9 { return false; }
     let k = w.n - from;
-    w.b[w.n - 1] != b'0' && num(&w.b, from, w.n) * pow10(9 - k) == ns
+    let p = numf(&w.b, from, k);
+    w.b[w.n - 1] != b'0' && p < (1 << 62) && scale(p, k) == ns
 }
 
-//@harness c16_fmt_fractional
-//@target fmt::strtime::format::Formatter::{fmt_fractional,fmt_dot_fractional} + Extension::write_fractional_seconds + fmt::util::Fractional::new (%f %.f with every precision) (src/fmt/strtime/format.rs, src/fmt/util.rs)
+//@harness c16_fmt_fractional_auto
+//@target fmt::strtime::format::Formatter::{fmt_fractional,fmt_dot_fractional} + Extension::write_fractional_seconds + fmt::util::Fractional::new (%f %.f without a precision) (src/fmt/strtime/format.rs, src/fmt/util.rs)
 //@prop C16
 //@tier quick
 //@timeout 1200
-//@doc for every nanosecond count 0..=999_999_999, every flag and every precision (absent, 0..=255): with D = the 9-digit zero padded count; %f: precision 0 => Err; absent => D without trailing zeros, "0" for a zero count (at least one digit); p >= 1 => the first min(p, 9) digits of D (truncation, never rounding).  %.f: always Ok; precision 0, or absent with a zero count => the empty string; otherwise "." followed by what %f prints.  Flags change nothing
+//@doc for every nanosecond count 0..=999_999_999 and every flag, no precision given; D = the 9-digit zero padded count.  %f prints D without its trailing zeros (so the digits P with P * 10^(9 - len) == ns and last digit non-zero), and "0" for a zero count (at least one digit); %.f prints "." followed by the same digits, and the empty string for a zero count.  Always Ok; flags change nothing
 #[kani::proof]
 #[kani::unwind(26)]
-fn c16_fmt_fractional() {
+fn c16_fmt_fractional_auto() {
     let (time, _, _, _, ns) = any_time();
     let tm = BrokenDownTime::from(time);
-    let width: Option<u8> = kani::any();
-    let ext = Extension { flag: any_flag(), width };
+    let ext = Extension { flag: any_flag(), width: None };
+    let dot: bool = kani::any();
+    let mut w = Buf::new();
+    let r = {
+        let mut f = Formatter { fmt: b"", tm: &tm, wtr: &mut w };
+        if dot { f.fmt_dot_fractional(ext) } else { f.fmt_fractional(ext) }
+    };
+    assert!(r.is_ok() && !w.overflow);
+    if ns == 0 {
+        if dot { assert!(w.n == 0); } else { assert!(w.n == 1 && w.b[0] == b'0'); }
+    } else {
+        if dot { assert!(w.b[0] == b'.'); }
+        assert!(is_frac_trimmed(&w, if dot { 1 } else { 0 }, ns as u64));
+    }
+}
+
+//@harness c16_fmt_fractional_precision
+//@target fmt::strtime::format::Formatter::{fmt_fractional,fmt_dot_fractional} + Extension::write_fractional_seconds + fmt::util::{FractionalFormatter::precision,Fractional::new} (%Nf %.Nf) (src/fmt/strtime/format.rs, src/fmt/util.rs)
+//@prop C16
+//@tier quick
+//@timeout 1200
+//@doc for every nanosecond count 0..=999_999_999, every flag and every precision 0..=255: %f with precision 0 is Err, %.f with precision 0 prints nothing; precision p >= 1 prints exactly min(p, 9) digits, the first min(p, 9) digits of the 9-digit zero padded count: truncation, never rounding (the k-digit number P with P*10^(9-k) <= ns < (P+1)*10^(9-k)); zero counts print zeros; %.f puts "." in front
+#[kani::proof]
+#[kani::unwind(26)]
+fn c16_fmt_fractional_precision() {
+    let (time, _, _, _, ns) = any_time();
+    let tm = BrokenDownTime::from(time);
+    let p: u8 = kani::any();
+    let ext = Extension { flag: any_flag(), width: Some(p) };
     let dot: bool = kani::any();
     let mut w = Buf::new();
     let r = {
@@ -355,24 +479,13 @@ fn c16_fmt_fractional() {
         if dot { f.fmt_dot_fractional(ext) } else { f.fmt_fractional(ext) }
     };
     assert!(!w.overflow);
-    let from = if dot { 1 } else { 0 };
-    match width {
-        Some(0) => { if dot { assert!(r.is_ok() && w.n == 0); } else { assert!(r.is_err()); } }
-        None => {
-            assert!(r.is_ok());
-            if ns == 0 {
-                if dot { assert!(w.n == 0); } else { assert!(w.n == 1 && w.b[0] == b'0'); }
-            } else {
-                if dot { assert!(w.b[0] == b'.'); }
-                assert!(is_frac_trimmed(&w, from, ns));
-            }
-        }
-        Some(p) => {
-            assert!(r.is_ok());
-            if dot { assert!(w.b[0] == b'.'); }
-            let k = if p > 9 { 9 } else { p as usize };
-            assert!(is_frac_prefix(&w, from, k, ns));
-        }
+    if p == 0 {
+        if dot { assert!(r.is_ok() && w.n == 0); } else { assert!(r.is_err()); }
+    } else {
+        assert!(r.is_ok());
+        if dot { assert!(w.b[0] == b'.'); }
+        let k = if p > 9 { 9 } else { p as usize };
+        assert!(is_frac_prefix(&w, if dot { 1 } else { 0 }, k, ns as u64));
     }
 }
 
@@ -442,41 +555,126 @@ fn c16_fmt_extension_syntax() {
     }
 }
 
-//@harness c16_fmt_dispatch
-//@target fmt::strtime::format::Formatter::format (the directive table for the numeric specifiers) (src/fmt/strtime/format.rs)
-//@prop C16
-//@tier quick
-//@timeout 1200
-//@doc for every civil datetime (years 1969..=2068 so that %y is defined) and each of the directives Y C y m d e H k I l M S j u w p P: formatting the 2-byte format "%X" through the real `format()` loop is Ok and writes exactly the bytes that the fmt_* method named after X writes (the methods are specified by the other harnesses of this group and of c16_strftime), so the table maps every letter to its own method; a lone "%" is an Err, not a panic
-#[kani::proof]
-#[kani::stub(IDate::to_epoch_day, memo_to_epoch_day)]
-#[kani::unwind(26)]
-fn c16_fmt_dispatch() {
-    let dt = any_date();
-    kani::assume(1969 <= dt.year() && dt.year() <= 2068);
-    let (time, _, _, _, _) = any_time();
-    let tm = BrokenDownTime::from(DateTime::from_parts(dt, time));
-    let which: u8 = kani::any();
-    kani::assume(which < 18);
-    let mut w = Buf::new();
-    let mut v = Buf::new();
-    macro_rules! both {
-        ($lit:expr, $m:ident) => {{
-            let a = { let mut f = Formatter { fmt: $lit, tm: &tm, wtr: &mut w }; f.format().is_ok() };
-            let b = { let mut f = Formatter { fmt: b"", tm: &tm, wtr: &mut v }; f.$m(NOEXT).is_ok() };
-            (a, b)
-        }};
-    }
-    let (a, b) = match which {
-        0 => both!(b"%Y", fmt_year), 1 => both!(b"%C", fmt_century), 2 => both!(b"%y", fmt_year2), 3 => both!(b"%m", fmt_month),
-        4 => both!(b"%d", fmt_day_zero), 5 => both!(b"%e", fmt_day_space), 6 => both!(b"%H", fmt_hour24_zero), 7 => both!(b"%k", fmt_hour24_space),
-        8 => both!(b"%I", fmt_hour12_zero), 9 => both!(b"%l", fmt_hour12_space), 10 => both!(b"%M", fmt_minute), 11 => both!(b"%S", fmt_second),
-        12 => both!(b"%j", fmt_day_of_year), 13 => both!(b"%u", fmt_weekday_mon), 14 => both!(b"%w", fmt_weekday_sun),
-        15 => both!(b"%p", fmt_ampm_upper), 16 => both!(b"%P", fmt_ampm_lower),
-        _ => { let mut f = Formatter { fmt: b"%", tm: &tm, wtr: &mut w }; assert!(f.format().is_err()); return; }
-    };
+macro_rules! both {
+    ($tm:expr, $w:expr, $v:expr, $lit:expr, $m:ident) => {{
+        let a = { let mut f = Formatter { fmt: $lit, tm: $tm, wtr: $w }; f.format().is_ok() };
+        let b = { let mut f = Formatter { fmt: b"", tm: $tm, wtr: $v }; f.$m(NOEXT).is_ok() };
+        (a, b)
+    }};
+}
+fn same_text(a: bool, b: bool, w: &Buf, v: &Buf) {
     assert!(a && b && w.n == v.n && !w.overflow && w.n >= 1);
     let i: usize = kani::any();
     kani::assume(i < w.n);
     assert!(w.b[i] == v.b[i]);
+}
+
+//@harness c16_fmt_dispatch_time
+//@target fmt::strtime::format::Formatter::format (the directive table: H k I l M S) (src/fmt/strtime/format.rs)
+//@prop C16
+//@tier quick
+//@timeout 1200
+//@doc for every civil time and each of the directives H k I l M S: formatting the 2-byte format "%X" through the real `format()` loop is Ok and writes exactly the bytes that the fmt_* method specified for X in c16_fmt_clock_fields writes, so the table maps every letter to its own method; a lone "%" is an Err, not a panic
+#[kani::proof]
+#[kani::unwind(26)]
+fn c16_fmt_dispatch_time() {
+    let (time, _, _, _, _) = any_time();
+    let tm = BrokenDownTime::from(time);
+    let which: u8 = kani::any();
+    kani::assume(which < 7);
+    let mut w = Buf::new();
+    let mut v = Buf::new();
+    let (a, b) = match which {
+        0 => both!(&tm, &mut w, &mut v, b"%H", fmt_hour24_zero), 1 => both!(&tm, &mut w, &mut v, b"%k", fmt_hour24_space),
+        2 => both!(&tm, &mut w, &mut v, b"%I", fmt_hour12_zero), 3 => both!(&tm, &mut w, &mut v, b"%l", fmt_hour12_space),
+        4 => both!(&tm, &mut w, &mut v, b"%M", fmt_minute), 5 => both!(&tm, &mut w, &mut v, b"%S", fmt_second),
+        _ => { let mut f = Formatter { fmt: b"%", tm: &tm, wtr: &mut w }; assert!(f.format().is_err()); return; }
+    };
+    same_text(a, b, &w, &v);
+}
+
+//@harness c16_fmt_dispatch_date
+//@target fmt::strtime::format::Formatter::format (the directive table: Y C y m d e j u w G g V) (src/fmt/strtime/format.rs)
+//@prop C16
+//@tier quick
+//@timeout 1200
+//@doc for every date of the years 1970..=2067 (so that %y and %g are defined) and each of the directives Y C y m d e j u w G g V: formatting "%X" through the real `format()` loop is Ok and writes exactly the bytes of the fmt_* method specified for X (c16_fmt_date_fields, c16_numeric_calendar_facts, c16_fmt_iso_week_print); `Date::iso_week_date` and the day count are nondeterministic stubs here (the same value is seen by both sides)
+#[kani::proof]
+#[kani::stub(IDate::to_epoch_day, memo_to_epoch_day)]
+#[kani::stub(Date::iso_week_date, stub_iso_week_date)]
+#[kani::unwind(26)]
+fn c16_fmt_dispatch_date() {
+    let dt = any_date();
+    kani::assume(1970 <= dt.year() && dt.year() <= 2067);
+    let gy: i16 = kani::any(); kani::assume(1969 <= gy && gy <= 2068);
+    let gw: i8 = kani::any(); kani::assume(1 <= gw && gw <= 52);
+    unsafe { ISO_REC = (true, gy, gw); }
+    let tm = BrokenDownTime::from(dt);
+    let which: u8 = kani::any();
+    kani::assume(which < 12);
+    let mut w = Buf::new();
+    let mut v = Buf::new();
+    let (a, b) = match which {
+        0 => both!(&tm, &mut w, &mut v, b"%Y", fmt_year), 1 => both!(&tm, &mut w, &mut v, b"%C", fmt_century), 2 => both!(&tm, &mut w, &mut v, b"%y", fmt_year2),
+        3 => both!(&tm, &mut w, &mut v, b"%m", fmt_month), 4 => both!(&tm, &mut w, &mut v, b"%d", fmt_day_zero), 5 => both!(&tm, &mut w, &mut v, b"%e", fmt_day_space),
+        6 => both!(&tm, &mut w, &mut v, b"%j", fmt_day_of_year), 7 => both!(&tm, &mut w, &mut v, b"%u", fmt_weekday_mon), 8 => both!(&tm, &mut w, &mut v, b"%w", fmt_weekday_sun),
+        9 => both!(&tm, &mut w, &mut v, b"%G", fmt_iso_week_year), 10 => both!(&tm, &mut w, &mut v, b"%g", fmt_iso_week_year2),
+        _ => both!(&tm, &mut w, &mut v, b"%V", fmt_week_iso),
+    };
+    same_text(a, b, &w, &v);
+}
+/// nondeterministic stand-in for `Date::iso_week_date` (its value is c16_iso_week_date): some ISO week date, the same for
+/// every call of one run, recorded together with the date it was asked about
+static mut ISO_REC: (bool, i16, i8) = (false, 0, 0);
+static mut ISO_ARG: (i16, i8, i8) = (0, 0, 0);
+fn stub_iso_week_date(d: Date) -> crate::civil::ISOWeekDate {
+    unsafe {
+        if !ISO_REC.0 {
+            let y: i16 = kani::any(); kani::assume(-9999 <= y && y <= 9999);
+            let w: i8 = kani::any(); kani::assume(1 <= w && w <= 52);
+            ISO_REC = (true, y, w);
+        }
+        ISO_ARG = (d.year(), d.month(), d.day());
+        crate::civil::ISOWeekDate::new_ranged(t::ISOYear::new_unchecked(ISO_REC.1), t::ISOWeek::new_unchecked(ISO_REC.2), Weekday::Monday).unwrap()
+    }
+}
+
+//@harness c16_fmt_iso_week_print
+//@target fmt::strtime::format::Formatter::{fmt_iso_week_year,fmt_iso_week_year2,fmt_week_iso} (%G %g %V: glue and printing) (src/fmt/strtime/format.rs)
+//@prop C16
+//@tier quick
+//@timeout 1200
+//@doc (a) with the ISO fields present in the broken-down time (every ISO year -9999..=9999, week 1..=53): %G prints the year like %Y ('-' for negative years, then 4 zero padded digits), %V the week as 2 digits, %g is Ok exactly for ISO years 1969..=2068 and prints year mod 100 as 2 digits.  (b) for a broken-down time made from a Date (every date): the three methods ask `Date::iso_week_date` about exactly that date and print its year / week the same way (callee replaced by a recording nondeterministic stub; its value -- the ISO 8601 year and week of the date by the Thursday rule -- is c16_iso_week_date)
+#[kani::proof]
+#[kani::stub(IDate::to_epoch_day, memo_to_epoch_day)]
+#[kani::stub(Date::iso_week_date, stub_iso_week_date)]
+#[kani::unwind(26)]
+fn c16_fmt_iso_week_print() {
+    let from_date: bool = kani::any();
+    let dt = any_date();
+    let gy: i16 = kani::any(); kani::assume(-9999 <= gy && gy <= 9999);
+    let gw: i8 = kani::any(); kani::assume(1 <= gw && gw <= 53);
+    let tm = if from_date { BrokenDownTime::from(dt) } else {
+        BrokenDownTime { iso_week_year: Some(t::ISOYear::new_unchecked(gy)), iso_week: Some(t::ISOWeek::new_unchecked(gw)), ..BrokenDownTime::default() }
+    };
+    let which: u8 = kani::any();
+    kani::assume(which < 3);
+    let mut w = Buf::new();
+    let r = {
+        let mut f = Formatter { fmt: b"", tm: &tm, wtr: &mut w };
+        match which { 0 => f.fmt_iso_week_year(NOEXT), 1 => f.fmt_iso_week_year2(NOEXT), _ => f.fmt_week_iso(NOEXT) }
+    };
+    let (y, wk) = if from_date {
+        let (_, ry, rw) = unsafe { ISO_REC };
+        assert!(unsafe { ISO_ARG } == (dt.year(), dt.month(), dt.day()));
+        (ry as i64, rw as i64)
+    } else { (gy as i64, gw as i64) };
+    match which {
+        0 => assert!(r.is_ok() && is_int(&w, y, b'0', 4)),
+        1 => {
+            assert!(r.is_ok() == (1969 <= y && y <= 2068));
+            if r.is_ok() { assert!(is_int(&w, y % 100, b'0', 2) && w.n == 2); }
+        }
+        _ => assert!(r.is_ok() && is_int(&w, wk, b'0', 2) && w.n == 2),
+    }
 }
